@@ -86,7 +86,17 @@ class Path:
             return Outcome("raise", exc=pr.exc)
 
     def assume(self, cond):
+        """contract precondition / harness hypothesis. A path on which the hypothesis contradicts what the code already decided is
+        outside the contract: it is abandoned, so nothing is 'proved' from contradictory hypotheses."""
         self.ctx.assume(cond)
+        self._assumed = True
+
+    def _still_feasible(self):
+        # checked once per batch of hypotheses, before the next obligation is emitted
+        if getattr(self, "_assumed", False):
+            self._assumed = False
+            if not self.ctx.feasible(z3.BoolVal(True)):
+                raise PathInfeasible()
 
     def _z(self, cond):
         if isinstance(cond, bool):
@@ -98,6 +108,7 @@ class Path:
         raise EngineError(f"obligation goal is not a formula: {cond!r}")
 
     def prove(self, label, goal, kind="ensures", note="", watch=None, replay=None, meta=None):
+        self._still_feasible()
         oid = f"{self.vc.prop}/{self.name}/{label}@p{self.index}"
         ob = Obligation(oid, self.vc.prop, kind, self.ctx.hyps(), self._z(goal), list(self.functions), self.index,
                         note=note, watch=watch, replay=replay, meta=dict(meta or {}, label=label, harness=self.name))
@@ -107,6 +118,7 @@ class Path:
 
     def cover(self, label, cond=True, note=""):
         """reachability / non-vacuity: hyps and cond must be satisfiable"""
+        self._still_feasible()
         oid = f"{self.vc.prop}/{self.name}/cover:{label}@p{self.index}"
         ob = Obligation(oid, self.vc.prop, "cover", self.ctx.hyps(), self._z(cond), list(self.functions), self.index,
                         note=note, meta=dict(label=label, harness=self.name))
@@ -132,6 +144,7 @@ class VC:
         self.extra = {}
         self.z3_timeout_ms = 10000 if tier == "quick" else 60000
         self.cvc5_timeout_s = 10 if tier == "quick" else 60
+        self.hard_deadline_s = None     # per obligation; default 3 * z3 timeout + cvc5 timeout + 900 s (normaliser)
         self.t0 = time.time()
         self.configure = None   # callable(interp) installing library summaries for this property
 
@@ -203,13 +216,15 @@ class VC:
         jobs = int(os.environ.get("PYVC_JOBS", "12"))
         if jobs > 1 and len(todo) > 8:
             # obligations are independent queries: discharged by forked workers (each with its own solver state)
-            import multiprocessing as mp
+            from .par import forked_map
             global _DISCHARGE_SELF
             _DISCHARGE_SELF = self
+            deadline = self.hard_deadline_s if self.hard_deadline_s is not None else \
+                3 * self.z3_timeout_ms / 1000 + self.cvc5_timeout_s + 900
             try:
-                with mp.get_context("fork").Pool(min(jobs, len(todo))) as pool:
-                    for k, r in pool.imap_unordered(_discharge_one, todo, chunksize=1):
-                        self.obligations[k].result = r
+                for _, (k, r) in forked_map(_discharge_one, todo, jobs, deadline,
+                                            lambda k, why: (k, solve.Result(solve.UNKNOWN, "none", 0.0, reason=why))):
+                    self.obligations[k].result = r
             finally:
                 _DISCHARGE_SELF = None
 
@@ -229,12 +244,12 @@ class VC:
         todo = cand[::step][:limit]
         res = []
         if todo:
-            import multiprocessing as mp
+            from .par import forked_map
             global _DISCHARGE_SELF
             _DISCHARGE_SELF = self
             try:
-                with mp.get_context("fork").Pool(min(int(os.environ.get("PYVC_JOBS", "12")), len(todo))) as pool:
-                    res = list(pool.imap_unordered(_thorough_one, todo, chunksize=1))
+                res = [r for _, r in forked_map(_thorough_one, todo, int(os.environ.get("PYVC_JOBS", "12")), 90,
+                                                lambda k, why: {"k": k, "cvc5": solve.UNKNOWN, "hyps": solve.UNKNOWN, "why": why})]
             finally:
                 _DISCHARGE_SELF = None
         summary = {"candidates": len(cand), "rechecked": len(res),
